@@ -250,10 +250,51 @@ def evalAnd : Value → Value → Res Value
   | .bool false, _ => .ok (.bool false)
   | v, r => tryAnd v r
 
+/-- `BTreeMap` union in which the entries of the right operand win. -/
+def mergeMaps (a : VMap) : VMap → VMap
+  | .nil => a
+  | .cons k v m => mergeMaps (a.insert k v) m
+
+/-- `try_merge`: `lhs.into_iter().chain(rhs).collect::<ObjectMap>()`. -/
+def tryMerge : Value → Value → Res Value
+  | .obj a, .obj b => .ok (.obj (mergeMaps a b))
+  | _, _ => .err .merge
+
 /-- well-formed values: floats are non-NaN 64-bit patterns (`NotNan<f64>`), integers are `i64`. -/
 def scalarOK : Value → Bool
   | .int i => inI64 i
   | .float b => decide (b < F64.p64) && !F64.isNaN b
   | _ => true
+
+/-! ### `Except`-shaped view (for `Lang.Ops`): the same functions with the panic folded into the
+    error type.  `ErrClass.value e` is the `ValueError` variant, `ErrClass.panic` the one panic of
+    this code (`[u8]::repeat` capacity overflow in `bytes * n`). -/
+namespace Api
+
+inductive ErrClass where
+  | value (e : Err)
+  | panic
+  deriving DecidableEq, Repr
+
+def ofRes : Res Value → Except ErrClass Value
+  | .ok v => .ok v
+  | .err e => .error (.value e)
+  | .panic => .error .panic
+
+def tryAdd (a b : Value) : Except ErrClass Value := ofRes (Arith.tryAdd a b)
+def trySub (a b : Value) : Except ErrClass Value := ofRes (Arith.trySub a b)
+def tryMul (a b : Value) : Except ErrClass Value := ofRes (Arith.tryMul a b)
+def tryDiv (a b : Value) : Except ErrClass Value := ofRes (Arith.tryDiv a b)
+def tryRem (a b : Value) : Except ErrClass Value := ofRes (Arith.tryRem a b)
+def tryGt (a b : Value) : Except ErrClass Value := ofRes (Arith.tryCmp .gt a b)
+def tryGe (a b : Value) : Except ErrClass Value := ofRes (Arith.tryCmp .ge a b)
+def tryLt (a b : Value) : Except ErrClass Value := ofRes (Arith.tryCmp .lt a b)
+def tryLe (a b : Value) : Except ErrClass Value := ofRes (Arith.tryCmp .le a b)
+def tryAnd (a b : Value) : Except ErrClass Value := ofRes (Arith.tryAnd a b)
+def tryMerge (a b : Value) : Except ErrClass Value := ofRes (Arith.tryMerge a b)
+/-- `eq_lossy` of the tree under verification (`Arith.eqImpl`). -/
+def eqLossy (a b : Value) : Bool := Arith.eqImpl a b
+
+end Api
 
 end Arith
